@@ -180,6 +180,37 @@ theorem flood_round_truth_partial {adj : Node → Adj} (ht : Topo adj) {σ0 σ :
     (σ.st n).known m = some (adj m) :=
   flood_round_truth ht h0 hr hquiet m horig n hconn hnm
 
+/-- a quiescent state reached from a `Start` state is again a `Start` state — for whatever topology comes next -/
+theorem start_of_reach_quiet {adj adj' : Node → Adj} (ht : Topo adj) {σ0 σ : Net} (h0 : Start adj σ0)
+    (hr : Reach adj σ0 σ) (hq : ∀ a b, σ.q a b = []) : Start adj' σ := by
+  have hg := good_reach ht (good_start h0) hr
+  exact ⟨hq, hg.noFuture, hg.seenUsed, hg.curUsed, hg.seenCur⟩
+
+/-- a history of phases: in each phase the topology is fixed (links came up or went down between phases, while
+nothing was in flight), any number of originations and deliveries happen in any order, and the phase ends quiescent -/
+inductive Phases : Net → List (Node → Adj) → Net → Prop
+  | nil (σ : Net) : Phases σ [] σ
+  | cons {σ0 σ1 σ2 : Net} {adj : Node → Adj} {rest : List (Node → Adj)} :
+      Topo adj → Reach adj σ0 σ1 → (∀ a b, σ1.q a b = []) → Phases σ1 rest σ2 → Phases σ0 (adj :: rest) σ2
+
+theorem start_of_phases {adjs : List (Node → Adj)} {adj0 adj' : Node → Adj} {σ0 σ : Net} (h0 : Start adj0 σ0)
+    (hp : Phases σ0 adjs σ) : Start adj' σ := by
+  induction hp generalizing adj0 with
+  | nil σ => exact ⟨h0.quiet, h0.noFuture, h0.seenUsed, h0.curUsed, h0.seenCur⟩
+  | cons ht hr hq _ ih =>
+    have h1 : Start adj0 _ := start_of_reach_quiet ht ⟨h0.quiet, h0.noFuture, h0.seenUsed, h0.curUsed, h0.seenCur⟩ hr hq
+    exact ih h1
+
+/-- **flood_truth_after_changes.** The topology may change any number of times (between quiescent moments): after the
+last change, once `m` has originated again and the network is quiescent, every other node of `m`'s component *in the
+final topology* holds exactly `m`'s final adjacency.  (`_partial`: still one epoch, and links change only while no
+update is in flight.) -/
+theorem flood_truth_after_changes_partial {adjs : List (Node → Adj)} {adj0 adjLast : Node → Adj} {σ0 σ1 σ : Net}
+    (h0 : Start adj0 σ0) (hp : Phases σ0 adjs σ1) (ht : Topo adjLast) (hr : Reach adjLast σ1 σ)
+    (hquiet : ∀ a b, σ.q a b = []) (m : Node) (horig : σ1.seq m < σ.seq m) (n : Node)
+    (hconn : Conn adjLast m n) (hnm : n ≠ m) : (σ.st n).known m = some (adjLast m) :=
+  flood_round_truth ht (start_of_phases (adj' := adjLast) h0 hp) hr hquiet m horig n hconn hnm
+
 end Receptor.FloodNet
 
 namespace Receptor.Aging
